@@ -603,6 +603,12 @@ func verifFlat(bs [][]verifPut) []verifPut {
 // VerifC19ModelBlocking: Cluster.Do per command, or one blocking Batch per batch.
 func VerifC19ModelBlocking() {
 	c := verifNewModelCluster(true)
+	if verifChoose("handleRedirects", 2) == 0 {
+		// handleMoveErr / handleAskErr switched off in the configuration: a redirect is the caller's business -
+		// it must come back as an error, never as a reply-less success
+		c.handleMoveError, c.handleAskError = false, false
+		verifCover(true, "model.blocking.redirects-not-handled")
+	}
 	verifPrepare(c)
 	bs := verifScenario(verifParam("MNC", 2), 3, false)
 	single := verifChoose("api", 2) == 0
